@@ -43,13 +43,13 @@ class K13a(Harness):
     def params(self, tier):
         if tier == "quick":
             return [{"K": 1, "nskip": 1, "pmax": 7}, {"K": 2, "nskip": 1, "pmax": 7}]
-        return [{"K": 1, "nskip": 2, "pmax": 7}, {"K": 2, "nskip": 2, "pmax": 7}, {"K": 3, "nskip": 1, "pmax": 3}]
+        return [{"K": 1, "nskip": 2, "pmax": 7}, {"K": 2, "nskip": 2, "pmax": 7}, {"K": 3, "nskip": 1, "pmax": 2, "lite": True}]
 
     def run(self, eng, p):
         K = p["K"]
         oFile = StubFile()
         log = []
-        rules = [StubRule(eng, i, phases=(1, p["pmax"]), subphases=(1, 2), max_viol=1, lines=(1, 1), sym_fixable=False, log=log) for i in range(K)]
+        rules = [StubRule(eng, i, phases=(1, p["pmax"]), subphases=(1, 1) if p.get("lite") else (1, 2), max_viol=1, lines=(1, 1), sym_fixable=False, log=log) for i in range(K)]
         ap = eng.bool("ap")
         sk = _skip_list(eng, p["nskip"])
         rl = make_rule_list(rules, oFile)
@@ -112,14 +112,14 @@ class K03(Harness):
     def params(self, tier):
         if tier == "quick":
             return [{"K": 1, "pmax": 7, "fp_str": False}, {"K": 1, "pmax": 7, "fp_str": True}, {"K": 2, "pmax": 4, "fp_str": False}]
-        return [{"K": 1, "pmax": 7, "fp_str": False}, {"K": 1, "pmax": 7, "fp_str": True}, {"K": 2, "pmax": 7, "fp_str": False}, {"K": 3, "pmax": 2, "fp_str": False}]
+        return [{"K": 1, "pmax": 7, "fp_str": False}, {"K": 1, "pmax": 7, "fp_str": True}, {"K": 2, "pmax": 7, "fp_str": False}, {"K": 3, "pmax": 2, "fp_str": False, "lite": True}]
 
     def run(self, eng, p):
         K = p["K"]
         oFile = StubFile()
         log = []
-        rules = [StubRule(eng, i, phases=(1, p["pmax"]), subphases=(1, 2), max_viol=2, lines=(1, 1), log=log) for i in range(K)]
-        N = eng.int("fix_phase", 1, 7)
+        rules = [StubRule(eng, i, phases=(1, p["pmax"]), subphases=(1, 1) if p.get("lite") else (1, 2), max_viol=1 if p.get("lite") else 2, lines=(1, 1), log=log) for i in range(K)]
+        N = eng.int("fix_phase", 1, 7 if not p.get("lite") else 3)
         sk = _skip_list(eng, 1)
         rl = make_rule_list(rules, oFile)
         fp = N
@@ -165,7 +165,7 @@ class K13b(Harness):
     def params(self, tier):
         if tier == "quick":
             return [{"K": 2, "pmax": 5}]
-        return [{"K": 2, "pmax": 7}, {"K": 3, "pmax": 4}]
+        return [{"K": 2, "pmax": 7}, {"K": 3, "pmax": 2}]
 
     def run(self, eng, p):
         K = p["K"]
@@ -222,7 +222,7 @@ class K06(Harness):
     outside = "state shared between real rule bodies (L06)"
 
     def params(self, tier):
-        return [{"K": 2, "pmax": 7}] if tier == "quick" else [{"K": 2, "pmax": 7}, {"K": 3, "pmax": 3}]
+        return [{"K": 2, "pmax": 7}] if tier == "quick" else [{"K": 2, "pmax": 7}, {"K": 3, "pmax": 1}]
 
     def run(self, eng, p):
         K = p["K"]
